@@ -219,7 +219,7 @@ def load_known(pid: str) -> list[dict]:
         return []
     with open(KNOWN_FILE) as f:
         data = json.load(f)
-    return [e for e in data.get("findings", []) if pid in e.get("properties", [e.get("property")])]
+    return [e for e in data.get("findings", []) if e.get("property") == pid]
 
 
 def main() -> int:
